@@ -33,6 +33,10 @@ type Profile struct {
 	Conflicts   bool // DetectConflicts
 	IterHeavy   bool // more/longer iterator scripts (C06)
 	AllowGC     bool // generate value-log GC steps even while C02-R1 is open (used to replay it)
+	// ExpiredTail: a third of the histories end with "commit an already expired write (and a
+	// delete), flush, compact, reopen": the newest versions in the store are entries a
+	// compaction classifies as stale.
+	ExpiredTail bool
 	MemSizes    []int // memtable sizes to draw from (default 8 MiB: rotation only where the history places it)
 }
 
@@ -193,6 +197,25 @@ func Gen(t *rapid.T, p Profile) Case {
 			}
 		}
 		c.Ops = append(c.Ops, op)
+	}
+	if p.ExpiredTail && rapid.IntRange(0, 2).Draw(t, "expiredTail") == 0 {
+		k := rapid.IntRange(0, len(c.Keys)-1).Draw(t, "tailKey")
+		c.Ops = append(c.Ops,
+			Op{K: "begin", T: 3, Update: true},
+			Op{K: "set", T: 3, Key: k, VSize: 33, Exp: 1},
+			Op{K: "commit", T: 3},
+			Op{K: "begin", T: 3, Update: true},
+			Op{K: "del", T: 3, Key: (k + 1) % len(c.Keys)},
+			Op{K: "set", T: 3, Key: k, VSize: 1, Exp: 1},
+			Op{K: "commit", T: 3},
+			Op{K: "maint", M: eng.Maint{Kind: "rotate"}},
+			Op{K: "maint", M: eng.Maint{Kind: "drain", A: rapid.IntRange(0, 7).Draw(t, "tailA")}},
+			Op{K: "maint", M: eng.Maint{Kind: rapid.SampledFrom([]string{"drain", "compact", "once"}).Draw(t, "tailM"), A: rapid.IntRange(0, 7).Draw(t, "tailB")}},
+			Op{K: "reopen"},
+			Op{K: "begin", T: 3, Update: true},
+			Op{K: "set", T: 3, Key: k, VSize: 8},
+			Op{K: "commit", T: 3},
+			Op{K: "reopen"})
 	}
 	return c
 }
